@@ -53,9 +53,9 @@ func mapRangeFindings(p *Prog, pkgs []string) []c06Finding {
 				if _, isMap := rg.X.Type().Underlying().(*types.Map); !isMap {
 					return
 				}
-				key := fmt.Sprintf("%s range over map %s", FuncName(f), exprKey(rg.X))
+				key := fmt.Sprintf("%s range over map %s", FuncName(f), sk(rg.X))
 				rs := p.RelsAt(rm, rg)
-				mk := exprKey(rg.X)
+				mk := sk(rg.X)
 				// idiom (i): at most one element
 				if rs["len("+mk+") <= 1"] || rs["len("+mk+") < 2"] || rs[eqRel("len("+mk+")", "1")] || rs[eqRel("len("+mk+")", "0")] {
 					out = append(out, c06Finding{"R06a", key, "at most one element on every path here (fact len <= 1): iteration order is irrelevant", rg.Pos(), true})
@@ -305,11 +305,11 @@ func c06Workers(p *Prog, r *Report) {
 							}
 						}
 						if fromFreeVar(x.Addr) {
-							bad = append(bad, "store to captured "+exprKey(x.Addr)+" at "+p.Pos(instrPos(in2)))
+							bad = append(bad, "store to captured "+sk(x.Addr)+" at "+p.Pos(instrPos(in2)))
 						}
 					case *ssa.MapUpdate:
 						if fromFreeVar(x.Map) {
-							bad = append(bad, "map update of captured "+exprKey(x.Map))
+							bad = append(bad, "map update of captured "+sk(x.Map))
 						}
 					case *ssa.Call:
 						// captured pointers passed to calls other than sync primitives
@@ -325,7 +325,7 @@ func c06Workers(p *Prog, r *Report) {
 							}
 						}
 						if bi, ok := x.Call.Value.(*ssa.Builtin); ok && bi.Name() == "append" && fromFreeVar(x.Call.Args[0]) {
-							bad = append(bad, "append to captured slice "+exprKey(x.Call.Args[0]))
+							bad = append(bad, "append to captured slice "+sk(x.Call.Args[0]))
 						}
 					}
 				})
@@ -472,7 +472,7 @@ func c06Sorting(p *Prog, r *Report) {
 			// sorted value is what is returned
 			p.instrs(sf, func(b *ssa.BasicBlock, i int, in ssa.Instruction) {
 				if ret, ok := in.(*ssa.Return); ok {
-					if exprKey(ret.Results[0]) == exprKey(srt.Call.Args[0].(*ssa.MakeInterface).X) && dominatesInstr(srt, ret) {
+					if sk(ret.Results[0]) == sk(srt.Call.Args[0].(*ssa.MakeInterface).X) && dominatesInstr(srt, ret) {
 						okSort = true
 					} else {
 						why = "the sorted slice is not the returned slice"
